@@ -172,7 +172,7 @@ func runC42(c *eng.Ctx) {
 			return
 		}
 		nClr++
-		g := eng.WithoutImplied(eng.Guards(s))
+		g := eng.WithoutImplied(eng.ExpandConjunctions(eng.Guards(s)))
 		hasMade, hasPoll, extra := false, false, ""
 		for _, a := range g {
 			if !ct.Block().Dominates(s.Block()) {
@@ -199,7 +199,7 @@ func runC42(c *eng.Ctx) {
 			continue
 		}
 		nStrobe++
-		g := eng.WithoutImplied(eng.Guards(ci))
+		g := eng.WithoutImplied(eng.ExpandConjunctions(eng.Guards(ci)))
 		hasMade, hasPoll, extra := false, false, ""
 		for _, a := range g {
 			if a.V == ssa.Value(made) && a.Pos {
@@ -361,7 +361,7 @@ func runC42(c *eng.Ctx) {
 		c.Check("R5", "modification-strobes", wp.Pos(), false, "a detected modification strobes the poll signal")
 		return
 	}
-	g := eng.WithoutImplied(eng.Guards(strobeCall))
+	g := eng.WithoutImplied(eng.ExpandConjunctions(eng.Guards(strobeCall)))
 	hasMod := false
 	var ignore *ssa.Phi
 	extra := ""
